@@ -2,6 +2,7 @@
 from __future__ import annotations
 
 import ast
+import copy
 from dataclasses import dataclass
 from typing import Callable, Dict, FrozenSet, Iterable, List, Optional, Set, Tuple
 
@@ -68,6 +69,9 @@ class FV:
         self.env = prog.local_types(f, concrete)
         self._calls: Optional[List[CallSite]] = None
         self._expr_node: Dict[int, int] = {}
+        self.registry = None  # Effects instance (shared cache of function views), set by Effects.fv
+        self.res.inliner = self._inline
+        self._inlining = False
         for n in self.cfg.nodes:
             for r in node_roots(n):
                 for sub in own_walk(r):
@@ -123,6 +127,120 @@ class FV:
             if n.kind == "stmt":
                 yield n, n.ast
 
+    # ---------------------------------------------- looking through new helper functions
+    def _helper_view(self, raw_call: ast.Call):
+        """(callee FunctionInfo, its FV) if the call goes to a helper that is not one of the frozen anchor functions."""
+        from .anchors import KNOWN_FUNCTIONS
+
+        if self.registry is None:
+            return None
+        callee = self.prog.resolve_call(self.f, raw_call, self.env)
+        if callee.kind != "func" or callee.func is None or callee.func.short in KNOWN_FUNCTIONS or callee.func.qualname == self.f.qualname:
+            return None
+        g = callee.func
+        conc = self.concrete if (g.cls is not None and self.concrete is not None and g.cls in self.prog.mro(self.concrete)) else None
+        depth = getattr(self.registry, "_inline_depth", 0)
+        if depth >= 3:
+            return None
+        return g, conc
+
+    def _bind_terms(self, g: FunctionInfo, resolved_call: ast.Call) -> Optional[Dict[str, ast.AST]]:
+        a = g.node.args
+        pos = [x.arg for x in a.posonlyargs + a.args]
+        mapping: Dict[str, ast.AST] = {}
+        if g.cls is not None and pos and not any(isinstance(d, ast.Name) and d.id == "staticmethod" for d in g.node.decorator_list):
+            recv = resolved_call.func.value if isinstance(resolved_call.func, ast.Attribute) else None
+            if recv is not None:
+                mapping[pos[0]] = recv
+            pos = pos[1:]
+        for i, arg in enumerate(resolved_call.args):
+            if isinstance(arg, ast.Starred) or i >= len(pos):
+                return None
+            mapping[pos[i]] = arg
+        for kw in resolved_call.keywords:
+            if kw.arg is None:
+                return None
+            mapping[kw.arg] = kw.value
+        for p in g.params:
+            if p not in mapping:
+                d = g.param_default(p)
+                if d is not None:
+                    mapping[p] = d
+        return mapping
+
+    @staticmethod
+    def _substitute(term: ast.AST, mapping: Dict[str, ast.AST], prefix: str) -> ast.AST:
+        class S(ast.NodeTransformer):
+            def visit_Name(self, n: ast.Name):
+                if n.id in mapping:
+                    return copy.deepcopy(mapping[n.id])
+                return n
+
+            def visit_Call(self, n: ast.Call):
+                n = self.generic_visit(n)
+                if isinstance(n.func, ast.Name) and n.func.id.startswith("§"):
+                    n.args = [ast.Constant(value=f"{prefix}:{a.value}") if isinstance(a, ast.Constant) and isinstance(a.value, (str, int)) and not isinstance(a.value, bool) and (
+                        isinstance(a.value, int) or a.value.startswith(("loop@", "comp@"))) and n.func.id in ("§elem", "§idx", "§key", "§val", "§def", "§mut", "§rec") else a for a in n.args]
+                return n
+
+        return S().visit(copy.deepcopy(term))
+
+    def _inline(self, resolved_call: ast.Call, raw_call: ast.Call) -> Optional[ast.AST]:
+        hv = self._helper_view(raw_call)
+        if hv is None:
+            return None
+        g, conc = hv
+        reg = self.registry
+        reg._inline_depth = getattr(reg, "_inline_depth", 0) + 1
+        try:
+            gv = reg.fv(g, conc)
+            rets = gv.returns()
+            if not rets:
+                return None
+            keys = {key(t) for n, t in rets}
+            if len(keys) != 1:
+                return None
+            mapping = self._bind_terms(g, resolved_call)
+            if mapping is None:
+                return None
+            return self._substitute(rets[0][1], mapping, g.short)
+        finally:
+            reg._inline_depth -= 1
+
+    def helper_exit_facts(self, node: int) -> List[Tuple[ast.AST, bool, ast.AST]]:
+        """Facts that hold at the normal exit of new helper functions called before `node` (call node dominates node),
+        expressed over the caller's argument terms."""
+        out: List[Tuple[ast.AST, bool, ast.AST]] = []
+        if self.registry is None:
+            return out
+        for cs in self.calls():
+            if cs.node == node or not self.cfg.dominates(cs.node, node):
+                continue
+            hv = self._helper_view(cs.call)
+            if hv is None:
+                continue
+            g, conc = hv
+            reg = self.registry
+            reg._inline_depth = getattr(reg, "_inline_depth", 0) + 1
+            try:
+                gv = reg.fv(g, conc)
+                resolved_call = self.res.resolve(cs.call, cs.node) if False else None
+                # resolve the call's arguments without inlining the call itself
+                saved = self.res.inliner
+                self.res.inliner = None
+                try:
+                    rc = self.res.resolve(cs.call, cs.node)
+                finally:
+                    self.res.inliner = saved
+                mapping = self._bind_terms(g, rc) if isinstance(rc, ast.Call) else None
+                if mapping is None:
+                    continue
+                for r, pol, raw in gv.rfacts_at(gv.cfg.exit):
+                    out.append((self._substitute(r, mapping, g.short), pol, raw))
+            finally:
+                reg._inline_depth -= 1
+        return out
+
     # ------------------------------------------------------------- return values
     def return_nodes(self) -> List[Node]:
         return [n for n in self.cfg.nodes if n.kind == "stmt" and isinstance(n.ast, ast.Return) and n.ast.value is not None]
@@ -174,6 +292,7 @@ class FV:
         out = []
         for atom, pol, branch in self.cfg.facts_at(node):
             out.append((self.res.resolve(atom, branch), pol, atom))
+        out += self.helper_exit_facts(node)
         return out
 
     def controlling(self, node: int, within: Optional[Set[int]] = None, skip_raising: bool = False) -> List[Tuple[int, bool]]:
@@ -306,6 +425,7 @@ class Effects:
         k = (f.qualname, concrete.qualname if concrete else None)
         if k not in self._fv:
             self._fv[k] = FV(self.prog, f, concrete)
+            self._fv[k].registry = self
         return self._fv[k]
 
     def is_worklist_class(self, c: Optional[ClassInfo]) -> bool:
